@@ -34,6 +34,14 @@ def _fso_init(self, path, object_type, oid_is_path, hash_func, contents=None, mt
         Ctr.n += 1
         self.oid = "o%d" % Ctr.n
 MK.MockFSObject.__init__ = _fso_init
+class FCtr: n = 0
+_fso_init2 = MK.MockFSObject.__init__
+def _fso_init3(self, *a, **kw):
+    FCtr.n += 1; self._vhash = FCtr.n
+    _fso_init2(self, *a, **kw)
+MK.MockFSObject.__init__ = _fso_init3
+MK.MockFSObject.__hash__ = lambda self: self._vhash
+MK.MockFSObject.__eq__ = lambda self, o: self is o
 
 # deterministic SyncEntry hash
 _orig_se_init = S.SyncEntry.__init__
@@ -45,4 +53,4 @@ def _se_init(self, *a, **kw):
 S.SyncEntry.__init__ = _se_init
 S.SyncEntry.__hash__ = lambda self: self._vseq
 def reset():
-    Ctr.n = 0; ECtr.n = 0; clk.t = 1000.0
+    Ctr.n = 0; ECtr.n = 0; FCtr.n = 0; clk.t = 1000.0
